@@ -30,18 +30,23 @@ G(view, type, ds, qmd) == [view |-> view, type |-> type, ds |-> ds, qmd |-> qmd]
 
 LMet  == Lam1("e", Meth(Name("e"), "met", <<>>))
 LJets == Lam1("e", Meth(Name("e"), "jets", <<>>))
+LNest == Lam1("e", Meth(Meth(Name("e"), "jets", <<>>), "Select", <<Lam1("j", Meth(Name("j"), "pt", <<>>))>>))
+LNestTyped == Lam1("e", Meth(Meth(Name("e"), "jets", <<>>), "Select", <<Lam1("j", Meth(Name("j"), "pt", <<IntC(1)>>))>>))
+Emitted(lam, inType) == IF lam = LNest /\ inType = "Evt" THEN LNestTyped ELSE lam
 StreamType(op, lam, inType) ==
     CASE op = "Where" -> inType
       [] inType # "Evt" -> "Any"
       [] op = "Select" /\ lam = LMet -> "int"
       [] op = "SelectMany" /\ lam = LJets -> "Jet"
+      [] op = "Select" /\ lam = LNest -> "Iterable[int]"
       [] OTHER -> "Any"
 
 (* the stream an action creates, per the abstract design; <<>> if it creates none *)
 Created(a, gs, n) ==
     CASE a.act = "NewDataset" -> <<G(Fn("EventDataset", <<>>), a.op, n + 1, NoQ)>>
       [] a.act = "Derive" ->
-           <<G(Fn(a.op, <<gs[a.s].view, a.t>>), StreamType(a.op, a.t, gs[a.s].type), gs[a.s].ds, gs[a.s].qmd)>>
+           <<G(Fn(a.op, <<gs[a.s].view, Emitted(a.t, gs[a.s].type)>>), StreamType(a.op, a.t, gs[a.s].type),
+               gs[a.s].ds, gs[a.s].qmd)>>
       [] a.act = "MetaData" ->
            <<G(Fn("MetaData", <<gs[a.s].view, a.t>>), gs[a.s].type, gs[a.s].ds, gs[a.s].qmd)>>
       [] a.act = "QMetaData" ->
